@@ -335,8 +335,10 @@ def t_born_all(kd, obj, basis, udict=None):
     return torch.diagonal(U @ obj @ U.conj().T).real
 
 
-def t_sum_neg_log_p(kind, am, ph, n, samples, bases, reg=0.0, udict=None):
-    """sum_i -log(p~(sigma_i | b_i) + reg), unnormalised Born probabilities."""
+def t_sum_neg_log_p(kind, am, ph, n, samples, bases, reg=0.0, udict=None, reg_rotated_only=False):
+    """sum_i -log(p~(sigma_i | b_i) + reg), unnormalised Born probabilities.
+    reg_rotated_only: apply the regulariser only to rows whose basis is not all-Z
+    (what the library does: reference-basis rows use the exact energy gradient)."""
     kd, obj = t_state(kind, am, ph, n)
     total = torch.zeros((), dtype=RD)
     cache = {}
@@ -344,7 +346,8 @@ def t_sum_neg_log_p(kind, am, ph, n, samples, bases, reg=0.0, udict=None):
         b = "".join(b)
         if b not in cache:
             cache[b] = t_born_all(kd, obj, b, udict)
-        total = total - torch.log(cache[b][index_of(s)] + reg)
+        r = 0.0 if (reg_rotated_only and set(b) <= {"Z"}) else reg
+        total = total - torch.log(cache[b][index_of(s)] + r)
     return total
 
 
